@@ -29,7 +29,7 @@ META = {
 }
 
 BLOCKS = [["p"], ["cdir"], ["def", 1], ["use", 1], ["nuse", 1], ["fdef", 1], ["fref", 1], ["tgt", 1], ["lnk", 1], ["spec"], ["code"]]
-MORE = [["list"], ["def", 2], ["use", 2], ["nuse", 2], ["fdef", 2], ["fref", 2], ["tgt", 2], ["lnk", 2], ["topic"], ["img"]]
+MORE = [["list"], ["def", 2], ["use", 2], ["nuse", 2], ["fdef", 2], ["fref", 2], ["tgt", 2], ["lnk", 2], ["topic"], ["img"], ["olist"]]
 WRAPPERS = ["btick", "colon", "opts", "nested2", "div", "include", "substitution"]
 
 
@@ -61,6 +61,8 @@ def block_lines(b, i):
         return [f"G{i}x [^f{b[1]}]"]
     if k == "topic":       # directives that ask the state machine whether titles are allowed where they stand
         return ["```{" + ("topic" if i % 2 else "sidebar") + "} Title " + str(i), f"O{i}x", "```"]
+    if k == "olist":       # a one-line ordered list (a line that starts with a digit is not always a paragraph)
+        return [f"{i % 3 + 1}{'.)'[i % 2]} E{i}x item"]
     if k == "img":         # a relative image path is kept as written (also in a file included from another folder)
         return [f"I{i}x ![alt {i}](images/l{i}.png)"]
     if k == "tgt":
@@ -70,7 +72,7 @@ def block_lines(b, i):
     raise ValueError(k)
 
 
-MARK = {"spec": "S", "p": "P", "code": "C", "list": "L", "cdir": "D", "use": "U", "nuse": "N", "fdef": "F", "fref": "G", "tgt": "T", "lnk": "K", "topic": "O", "img": "I"}
+MARK = {"spec": "S", "p": "P", "code": "C", "list": "L", "cdir": "D", "use": "U", "nuse": "N", "fdef": "F", "fref": "G", "tgt": "T", "lnk": "K", "topic": "O", "img": "I", "olist": "E"}
 
 
 def join(blocks, start):
@@ -100,10 +102,12 @@ def pair(pre, x, post, w, d: Path, uid):
     ov = {}
     fl = max([3] + [len(ln) - len(ln.lstrip("`")) for ln in lx if ln.startswith("```")]) + 1
     cl = max([3] + [len(ln) - len(ln.lstrip(":")) for ln in lx if ln.startswith(":::")]) + 1
+    # (every third wrapper is an admonition whose title, written on the opening line, ends with a colon)
+    head = f"{{admonition}} Title W{uid}:" if uid % 3 == 1 else "{note}"
     if w == "btick":
-        wx = ["`" * fl + "{note}"] + lx + ["`" * fl]
+        wx = ["`" * fl + head] + lx + ["`" * fl]
     elif w == "colon":
-        wx = [":" * cl + "{note}"] + lx + [":" * cl]
+        wx = [":" * cl + head] + lx + [":" * cl]
     elif w == "opts":
         # the body follows the option block after a blank line, or directly (when its first line cannot be an option line)
         tight = uid % 3 == 0 and lx and not lx[0].lstrip().startswith(":") and lx[0].strip() != ""
@@ -147,7 +151,7 @@ def signatures(doc, blocks):
             if k in ("cdir", "nuse"):
                 if isinstance(n, nodes.Admonition):
                     hit = n             # document order: the innermost admonition comes last
-            elif isinstance(n, (nodes.paragraph, nodes.literal_block, nodes.bullet_list, nodes.footnote, nodes.topic, nodes.sidebar)):
+            elif isinstance(n, (nodes.paragraph, nodes.literal_block, nodes.bullet_list, nodes.enumerated_list, nodes.footnote, nodes.topic, nodes.sidebar)):
                 hit = n
                 break
         if hit is None:
@@ -202,6 +206,12 @@ def observe(case):
         return {"error": f"{type(e).__name__}: {e}", "a": a, "b": b}
     sa, ka = signatures(da, blocks)
     sb, kb = signatures(db, blocks)
+    if w in ("btick", "colon") and case["id"] % 3 == 1:
+        from docutils import nodes as _dn
+        want = f"Title W{case['id']}:"
+        got = [t.astext() for t in db.findall(_dn.title) if t.astext().startswith("Title W")]
+        if got != [want]:
+            return {"error": f"the title written on the wrapper's opening line is {got}, written {want!r} (no exception: title check)", "a": a, "b": b}
     return {"a": a, "b": b, "sigA": sa, "sigB": sb, "kindsA": ka, "kindsB": kb, "insideB": signatures.inside, "sort": sort}
 
 
